@@ -16,6 +16,10 @@ Margin(e) == IF Has(e, "margin64") THEN e.margin64 ELSE 32
 Check ==
   LET e == Rec[i] IN
   IF e.outcome # "ok" THEN PrintT(<<"BAD", i, e.id, "panic">>)
+  \* a non-positive or NaN width paints nothing
+  ELSE IF Has(e, "width_class") /\ e.width_class # "pos"
+       THEN LET painted == {k \in 1..(e.w * e.h) : e.pix[k] # Zero}
+            IN IF painted # {} THEN PrintT(<<"BAD", i, e.id, {}, painted>>) ELSE PrintT(<<"NT", i, 0, e.w * e.h>>)
   ELSE LET st == StyleOf(e)
            sps == Subpaths(e.ops)
            ok == \A k \in 1..Len(sps) : SubpathOK(sps[k])
